@@ -64,10 +64,23 @@ def run(prog, R):
     reach = prog.reachable_from(roots)
     seekers = [b for b in prog.bodies.values() if re.match(r'(fasta|fastq)::Reader::seek$', b.key)]
     n = {}
+    # error construction helpers (they allocate the id string) and the private functions only they call
+    cg = prog.call_graph()
+    callers = {}
+    for a_, bs_ in cg.items():
+        for b_ in bs_:
+            callers.setdefault(b_, set()).add(a_)
+    errh = set(p for p in reach if 'ErrorPosition' in prog.bodies[p].local_tys[0] and 'Result' not in prog.bodies[p].local_tys[0])
+    changed = True
+    while changed:
+        changed = False
+        for p in reach:
+            if p not in errh and callers.get(p) and callers[p] <= errh:
+                errh.add(p)
+                changed = True
     for p in sorted(reach):
         b = prog.bodies[p]
-        rt = b.local_tys[0]
-        if 'ErrorPosition' in rt and 'Result' not in rt:
+        if p in errh:
             continue                 # error construction helper (allocates the id string)
         du = DefUse(b)
         for x, t in b.calls():
@@ -163,7 +176,7 @@ def persistent(b, op, du):
     for r in rs:
         if r[0] == 'arg' and r[-1]:
             continue
-        if r[0] == 'arg' and b.local_tys[r[1]].startswith('&mut') and ('BufferPosition' in b.local_tys[r[1]] or 'RecordSet' in b.local_tys[r[1]] or 'Vec<' in b.local_tys[r[1]]):
+        if r[0] == 'arg' and b.local_tys[r[1]].startswith('&mut') and ('BufferPosition' in b.local_tys[r[1]] or 'RecordSet' in b.local_tys[r[1]] or 'Vec<' in b.local_tys[r[1]] or 'BufReader<' in b.local_tys[r[1]]):
             continue     # helper taking &mut self of a persistent struct (BufferPosition::update)
         return False
     return True
